@@ -14,7 +14,8 @@ content recipes
   ["shared", key, recipe]                       the SAME widget object wherever the key occurs again
   ["pile", [item recipe, ...], focus_index]
   ["listbox", [item recipe, ...], focus_index]  (only with wrap kind "LB")
-wrap = {"kind": "S" | "SB" | "LB", "side", "bw", "thumb", "trough", "ffk", "deco", "walker"}
+wrap = {"kind": "S" | "SB" | "LB", "side", "bw", "thumb", "trough", "ffk", "deco", "walker",
+        "keep": "last" | "per_size"  (which rendered frames the harness keeps alive: the last one / the last per (size, focus))}
 ops: see vmon/checks/c20.py Session.apply
 """
 
@@ -104,6 +105,10 @@ class Gen:
             inner = rng.choice([self.spy("rowspy", rng.randint(1, 2)), self.text(1), ["text", [""], "space", "left"]])
             for _ in range(rng.randint(2, 4)):
                 items.insert(rng.randint(0, len(items)), ["shared", "D", inner])
+        if rng.random() < 0.12 and items:
+            # a run of zero-row placeholders just before the last item(s)
+            at = max(0, len(items) - rng.randint(1, 2))
+            items[at:at] = [["emptypile"]] * rng.randint(2, 6)
         if rng.random() < 0.25:
             for _ in range(rng.randint(1, 3)):
                 sp = self.spy("rowspy", rng.randint(1, 3))
@@ -232,7 +237,9 @@ class Gen:
         if r < 0.77:
             return ["sweep", rng.choice(["pos", "keys", "wheel"]) if case_kind != "LB" else rng.choice(["keys", "wheel"])]
         if r < 0.83 and ckind in ("pile", "listbox"):
-            return ["setfocus", rng.randrange(64)]
+            if ckind == "listbox" and rng.random() < 0.3:
+                return ["valign", rng.choice(["top", "middle", "bottom"])]
+            return ["setfocus", rng.choice([rng.randrange(64), -1])]
         # content change
         if ckind == "text":
             return ["settext", -1, self.lines(rng.choice([1, 2, h, h + 1, rng.randint(1, 3 * h + 4)]))]
@@ -258,7 +265,7 @@ class Gen:
         self.base = 0
         kind = rng.choice(["S", "S", "S", "SB", "SB", "SB", "SB", "LB", "LB"])
         w, h = self.size()
-        wrap = {"kind": kind}
+        wrap = {"kind": kind, "keep": rng.choice(["last", "last", "per_size"])}
         if kind != "S":
             wrap.update(
                 side=rng.choice(["left", "right"]),
